@@ -176,7 +176,7 @@ func generate(a wh.Args, o *wh.Out) []string {
 	}
 
 	// 2. every ordered pair (at most one Retry), scripts and messages drawn per pair
-	perPair := 3
+	perPair := 6
 	if a.Thorough() {
 		perPair = 12
 	}
@@ -202,7 +202,7 @@ func generate(a wh.Args, o *wh.Out) []string {
 	}
 
 	// 3. ordered triples: all kinds in every order with Retry at each position, configurations drawn
-	nTriples := 4000
+	nTriples := 12000
 	if a.Thorough() {
 		nTriples = 40000
 	}
